@@ -5,12 +5,14 @@ import (
 	"encoding/json"
 	"errors"
 	"fmt"
+	"io"
 	"io/fs"
 	"os"
 	"regexp"
 	"sort"
 	"strconv"
 	"strings"
+	"syscall"
 	"time"
 
 	"github.com/stevenh/tracktools/pkg/gopro"
@@ -35,9 +37,26 @@ type recFS struct {
 	ops     []string
 	root    string
 	entries []fs.DirEntry
+	errKind int // which error value a failing operation reports (everything but Stat)
 }
 
 var errInjected = errors.New("injected fault")
+
+// injSentinels: the error values a failing operation may report. Whatever the value is, a failed
+// operation is a failed operation (Stat is different: "does not exist" is an answer, not a failure).
+var injSentinels = []error{errInjected, fs.ErrNotExist, fs.ErrPermission, io.EOF, fs.ErrClosed, fs.ErrExist, syscall.ENOENT}
+
+func (f *recFS) inj(op, name string) error {
+	e := injSentinels[f.errKind%len(injSentinels)]
+	if f.errKind == 0 || f.errKind == 3 {
+		return e
+	}
+	return &fs.PathError{Op: op, Path: name, Err: e}
+}
+
+func (f *recFS) isInjected(err error) bool {
+	return errors.Is(err, injSentinels[f.errKind%len(injSentinels)])
+}
 
 func (f *recFS) tick() bool {
 	fail := f.count == f.fault
@@ -92,7 +111,7 @@ func (f *recFS) Stat(name string) (fs.FileInfo, error) {
 func (f *recFS) ReadDir(name string) ([]fs.DirEntry, error) {
 	if f.tick() {
 		f.ops = append(f.ops, "rd:"+hexStr(name)+":0")
-		return nil, &fs.PathError{Op: "readdir", Path: name, Err: errInjected}
+		return nil, f.inj("readdir", name)
 	}
 	f.ops = append(f.ops, "rd:"+hexStr(name)+":1")
 	if name != f.root {
@@ -113,7 +132,7 @@ func (t *recTemp) Name() string { return t.name }
 func (t *recTemp) Write(p []byte) (int, error) {
 	if t.fs.tick() {
 		t.fs.ops = append(t.fs.ops, "wr:"+hexStr(t.name)+":"+hexBytes(p)+":0")
-		return 0, errInjected
+		return 0, t.fs.inj("write", t.name)
 	}
 	t.fs.ops = append(t.fs.ops, "wr:"+hexStr(t.name)+":"+hexBytes(p)+":1")
 	return len(p), nil
@@ -122,7 +141,7 @@ func (t *recTemp) Write(p []byte) (int, error) {
 func (t *recTemp) Close() error {
 	if t.fs.tick() {
 		t.fs.ops = append(t.fs.ops, "cl:"+hexStr(t.name)+":0")
-		return errInjected
+		return t.fs.inj("close", t.name)
 	}
 	t.fs.ops = append(t.fs.ops, "cl:"+hexStr(t.name)+":1")
 	return nil
@@ -131,7 +150,7 @@ func (t *recTemp) Close() error {
 func (f *recFS) CreateTemp(dir, pattern string) (gopro.VerifTempFile, error) {
 	if f.tick() {
 		f.ops = append(f.ops, "ct:!")
-		return nil, errInjected
+		return nil, f.inj("open", dir)
 	}
 	name := fmt.Sprintf("/tmp/%s%d", pattern, f.nextTmp)
 	f.nextTmp++
@@ -143,7 +162,7 @@ func (f *recFS) CreateTemp(dir, pattern string) (gopro.VerifTempFile, error) {
 func (f *recFS) Chtimes(name string, _ time.Time, mtime time.Time) error {
 	if f.tick() {
 		f.ops = append(f.ops, fmt.Sprintf("ch:%s:%d:0", hexStr(name), mtime.Unix()))
-		return errInjected
+		return f.inj("chtimes", name)
 	}
 	mf, ok := f.files[name]
 	if !ok {
@@ -203,6 +222,9 @@ func gpProc(toks []string) string {
 	if f := cvField(toks, "F"); f != "-" {
 		fsys.fault, _ = strconv.Atoi(f)
 	}
+	if ek := cvField(toks, "EK"); ek != "" {
+		fsys.errKind, _ = strconv.Atoi(ek)
+	}
 	if l := cvField(toks, "L"); l != "~" {
 		for _, e := range strings.Split(l, ",") {
 			p := strings.Split(e, ":")
@@ -251,7 +273,7 @@ func gpProc(toks []string) string {
 		invs = append(invs, hexList(argv))
 		if fsys.tick() {
 			fsys.ops = append(fsys.ops, "ha:0")
-			return errInjected
+			return fsys.inj("exec", exe)
 		}
 		fsys.ops = append(fsys.ops, "ha:1")
 		out := a[len(a)-1]
@@ -289,7 +311,7 @@ func gpProc(toks []string) string {
 		cls = "nochapters"
 	case strings.Contains(perr.Error(), "load file sets"):
 		cls = "walk"
-	case errors.Is(perr, errInjected) && strings.HasSuffix(fsys.lastOp(), "ha:0"):
+	case fsys.isInjected(perr) && strings.HasSuffix(fsys.lastOp(), "ha:0"):
 		cls = "handler"
 	default:
 		cls = "fs"
@@ -669,8 +691,10 @@ func genGP(cfg *config, r *rng, i int, s *sink) string {
 	if r.chance(1, 2) {
 		fault = fmt.Sprint(r.intn(14))
 	}
-	return fmt.Sprintf("proc L=%s S=%s O=%s T=%s A=%s K=%s W=%d F=%s X=%s", l, hexStr(src), hexStr(outd), tmpl,
-		hexList(args), hexList(skip), r.intn(2), fault, x)
+	// the error value a failing operation reports: a private one, or one of the well-known ones
+	ek := pick(r, []int{0, 0, 1, 1, 2, 3, 4, 5, 6})
+	return fmt.Sprintf("proc L=%s S=%s O=%s T=%s A=%s K=%s W=%d F=%s X=%s EK=%d", l, hexStr(src), hexStr(outd), tmpl,
+		hexList(args), hexList(skip), r.intn(2), fault, x, ek)
 }
 
 func chapterRange(from, to int) []string {
@@ -703,6 +727,8 @@ func corpusGP(cfg *config) []string {
 	ops = append(ops, fmt.Sprintf(base, "-"))
 	for k := 0; k < 22; k++ {
 		ops = append(ops, fmt.Sprintf(base, fmt.Sprint(k)))
+		// ... reporting "does not exist" and "permission denied"
+		ops = append(ops, fmt.Sprintf(base, fmt.Sprint(k))+" EK=1", fmt.Sprintf(base, fmt.Sprint(k))+" EK=2")
 	}
 	return ops
 }
